@@ -114,11 +114,17 @@ Qed.
 
 Lemma walk_sound : forall t, walk_ok t.
 Proof.
-  fix IH 1. intros t. destruct t as [| |c|c|cs|].
+  fix IH 1. intros t. destruct t as [| |c|sz c|cs|].
   - apply (walk_prim 2). left. split; reflexivity.
   - apply (walk_prim 3). right. split; reflexivity.
   - intros body s s' H. cbn [walk] in H. apply (walk_wrap 2 c (IH c)) in H. exact H.
-  - intros body s s' H. cbn [walk] in H. apply (walk_wrap 1 c (IH c)) in H. exact H.
+  - intros body s s' H. cbn [walk] in H.
+    assert (H' : match next_node s with None => (CursorErr, s) | Some (n, s1) =>
+                   match next_buffers 1 body s1 with (Pass, s2) => finish n (first_buf s1) (walk c body s2) | r => r end end = (Pass, s')).
+    { destruct (next_node s) as [[n s1]|]; [|exact H]. destruct (next_buffers 1 body s1) as [e s2]. destruct e; try exact H.
+      destruct (finish n (first_buf s1) (walk c body s2)) as [e3 s3]. destruct e3; try discriminate.
+      destruct (_ <? _); [exact H|discriminate]. }
+    apply (walk_wrap 1 c (IH c)) in H'. exact H'.
   - intros body s s'. cbn [walk]. unfold next_node. destruct (nodes s) as [|n r] eqn:En; [discriminate|].
     destruct (next_buffers 1 body _) as [e s2] eqn:Eb. destruct e; try discriminate.
     apply next_buffers_pass in Eb. cbn [nodes bufs] in Eb. destruct Eb as [Hn [used [Hu [Hl Hf]]]].
